@@ -63,7 +63,7 @@ TIERS = {
                   raw_mc=dict(full_len=2, core_len=1, univ_full="UFullQ", univ_core="UCoreQ", raw='"a", "d"'),
                   names=["ascii", "utf8", "cp437"], name_stride=0),
     "thorough": dict(full_len=3, core_len=4, univ_full="UFullQ", univ_core="UCoreT", fixed=["G", "GI"],
-                     rotate=["GP", "GD", "H", "W", "GEM", "SP"], stride=3,
+                     rotate=["GP", "GD", "H", "W", "GEM", "SP"], stride=4,
                      extra_mc=dict(full_len=1, core_len=5, univ_full="UFullQ", univ_core="UCoreT5"),
                      raw_mc=dict(full_len=1, core_len=3, univ_full="UFullQ", univ_core="UCoreT", raw='"a", "d"'),
                      names=["ascii", "utf8", "cp437"], name_stride=7),
